@@ -6,7 +6,7 @@
    later in the list, a timer may run long after it woke up (also after it was cancelled meanwhile).
    `Inv` (Proofs.v) holds in every reachable state (C10_invariant).  Examples.v (imported so that it is
    re-checked) replays the defects of the code before the fix on variant Legacy. *)
-From CF Require Import Common.Bytes C10.Model C10.Proofs C10.Proofs_b C10.Proofs_c C10.Examples.
+From CF Require Import Common.Bytes C10.Model C10.Proofs C10.Proofs_b C10.Proofs_c C10.Proofs_e C10.Examples.
 Open Scope Z_scope.
 
 (* Every reachable state: patterns are distinct keys; each pending pattern has a live (armed or
@@ -140,3 +140,20 @@ Theorem C10_leftover_timers_unobservable : forall evs s s', Inv s -> sim s s' ->
 Proof. exact sim_run. Qed.
 Print Assumptions C10_leftover_timers_unobservable.
 
+
+(* ---- requests sent from inside packet handlers ---- *)
+(* run() checks a received packet against the pending patterns BEFORE it hands the packet to the port/header
+   callbacks: handling packet p = `handle_packet hdr data follow` = [Recv p; what the handlers send].  In ANY reachable
+   state, for ANY packet — also one that matches the new request's own pattern (a handler polling the same resource
+   again) — the request a handler sends while p is dispatched is pending afterwards with an armed timer of its own
+   timeout: p never cancels a request that was sent after p arrived (it can only answer earlier requests). *)
+Theorem C10_request_sent_while_handling_packet_not_cancelled_by_it :
+  forall s hdr data rid h d x exp tmo sess post,
+  Inv s -> link s = Some sess -> nr s = true -> (length d <= 30)%nat ->
+  let pat := hdr_attr h :: x :: exp in
+  other_sends pat post ->
+  let s' := fst (run Fixed s (handle_packet hdr data (Send rid h d (x :: exp) tmo :: post))) in
+  lookup pat (pats s') = Some (length (timers s)) /\
+  nth_error (timers s') (length (timers s)) = Some (mkTimer rid (hdr_attr h :: d) pat tmo (now s + tmo) Armed sess).
+Proof. exact handler_request_survives. Qed.
+Print Assumptions C10_request_sent_while_handling_packet_not_cancelled_by_it.
